@@ -47,7 +47,7 @@ def meta(tier):
             'with `.8byte <expr>` and `K = <expr>` and reported only if the CLI reproduces it',
             'IEEE-double division is accepted as the approximation of "real quotient": trees where exact and double '
             'evaluation truncate differently are not judged',
-            '% is judged only for non-negative integer operands; division/modulo by zero, negative shift counts and '
+            '% is judged only for non-negative operands (integer or not: a - b*floor(a/b)); division/modulo by zero, negative shift counts and '
             'bitwise operators on non-integers are not judged',
         ],
         'floors': {'evaluations': 1000, 'nontrivial': 100, 'clauses': ['value', 'malformed-rejected', 'literal', 'byte-extract']},
